@@ -160,6 +160,9 @@ def id3_unknown_frames(d):
         body = d[t["size"]:]
     fr = lambda fid, pl: fid + bytes([0, 0, 0, len(pl)]) + b"\x00\x00" + pl
     frames = fr(b"TIT2", b"\x03SynthTitle") + fr(b"XYZQ", b"opaque-one") + fr(b"XYZQ", b"opaque-two") + fr(b"ZZZ9", b"\x01\x02")
+    # frames of a known class that mutagen cannot interpret: encrypted (0x04), encrypted + compressed (0x04|0x08|0x01)
+    enc = lambda fid, fl, pl: fid + bytes([0, 0, 0, len(pl)]) + bytes([0, fl]) + pl
+    frames += enc(b"TPE1", 0x04, b"\x80cipher-text-one") + enc(b"TALB", 0x0D, b"\x00\x00\x00\x20" + b"\x81" + b"cipher-two\x9c")
     n = len(frames) + 40
     tag = b"ID3\x04\x00\x00" + bytes([(n >> 21) & 0x7F, (n >> 14) & 0x7F, (n >> 7) & 0x7F, n & 0x7F]) + frames + b"\x00" * 40
     return tag + body
